@@ -988,6 +988,9 @@ request_tcp(int code, const char *path, int observe, const uint8_t *tok, int tkl
   last_has_obs[P_T] = 0;
   if (!tcp_connect())
     return;
+  tcp_drain(); /* what other peers' operations made the server write to this connection in the meantime */
+  last_code[P_T] = -1;
+  last_has_obs[P_T] = 0;
   struct w_buf w; /* options and payload as in a datagram, then the stream framing around them */
   w_begin(&w, 0, code, 0, NULL, 0);
   if (observe >= 0)
@@ -2343,12 +2346,12 @@ mixed_family(int thorough) {
     if (ru < 0)
       ru = R_S1;
     /* the creations, then stop or kill (kill points of the last creation, kill in the restart) and restart */
-    emit_mixed(b, n, 1, thorough && k < n2 ? 2 : 1, 3);
+    emit_mixed(b, n, 1, thorough && k < n2 ? 2 : 1, thorough || k < n2 ? 3 : 2);
     /* ... then the first created resource is deleted, over either transport */
     for (int x = 0; x < 2; x++) {
       memcpy(h, b, sizeof b[0] * (size_t)n);
       h[n] = DEL(first, x);
-      if (thorough || k < n2 || x == 0)
+      if (thorough || k < n2)
         emit_mixed(h, n + 1, 1, 1, thorough ? 3 : 2);
     }
     /* ... then a UDP observer registers on a TCP-created and on a UDP-created resource (either order) */
@@ -2585,7 +2588,7 @@ main(int argc, char **argv) {
              "{TCP-UDP, UDP-TCP, TCP-TCP}, all 6 orders of {d1 over TCP, d2 over UDP, d3 over UDP}%s, each followed by stop-or-kill and restart with "
              "the kill points of the last creation and the kill points of the restart itself (thorough: 1- and 2-resource bases also a kill in both), by a "
              "deletion of the first created resource over either transport, and by a UDP observer registering on a TCP-created and on a UDP-created "
-             "resource (both orders; directly, after stop+restart, after kill+restart%s; save_freq %s; quick: 3-resource bases in one order and without the stop+restart variant); (b) peer t observes next to UDP "
+             "resource (both orders; directly, after stop+restart, after kill+restart%s; save_freq %s; quick: 3-resource bases without the kill in the restart, without the deletion, registrations in one order and without the stop+restart variant); (b) peer t observes next to UDP "
              "observers (reg / cancel / resource deletion over TCP rewrite the observe file that holds the UDP observers' records; t's connection ends "
              "at a stop+restart or kill+restart marker); after the judged restart of every mixed-transport history a new TCP connection GETs every "
              "resource; the independent reader of the files reads each stored packet with the framing of the record's transport label (RFC 7252 "
